@@ -14,6 +14,7 @@
 
 #include "addrspace.h"
 #include "as_endian.h"
+#include "bpemu.h"
 #include "cmdarg.h"
 #include "fileformat.h"
 #include "ioerrs.h"
@@ -208,7 +209,7 @@ void WriteRecordHeader(
 }
 
 void SkipRecord(Byte Header, char const* Name, FILE* f) {
-    int      Length;
+    long     Length;
     LongWord Addr, RelocCount, ExportCount, StringLen;
     Word     Len;
 
@@ -229,7 +230,7 @@ void SkipRecord(Byte Header, char const* Name, FILE* f) {
         if (!Read4(f, &StringLen)) {
             ChkIO(Name);
         }
-        Length = (16 * RelocCount) + (16 * ExportCount) + StringLen;
+        Length = (16 * (long)RelocCount) + (16 * (long)ExportCount) + (long)StringLen;
         break;
     default:
         if (!Read4(f, &Addr)) {
@@ -242,6 +243,12 @@ void SkipRecord(Byte Header, char const* Name, FILE* f) {
         break;
     }
 
+    /* a record cannot extend beyond the file; seeking there (or backwards, for
+       counts that overflow) would keep the caller's record loop from ending */
+
+    if ((Length < 0) || (ftell(f) + Length > FileSize(f))) {
+        FormatError(Name, catgetmessage(&MsgCat, Num_FormatInvRecHeaderMsg));
+    }
     if (fseek(f, Length, SEEK_CUR) != 0) {
         ChkIO(Name);
     }
